@@ -811,7 +811,7 @@ Section Layout.
   Lemma final_stuck st o : Final st -> step st o = Err Other.
   Proof.
     intros [_ [_ [_ [Hc _]]]]. unfold Writer.step, Writer.step0. rewrite Hc.
-    destruct (accepts _ _ _); reflexivity.
+    destruct (accepts _ _ _ _); reflexivity.
   Qed.
 
   Lemma final_self st n : Final st -> xlookup n (xtab st) = None -> wlookup n (wr st) = None.
